@@ -124,8 +124,33 @@ def events(scn, trace, nm: Names) -> list[str]:
     building = None      # id of the proxy under construction inside spawn_task
     tracked = set()      # python ids of proxies returned by spawn_task (pool candidates);
                          # other TaskProxy objects (data-store ghost nodes ...) are not pool tasks
+    loading = False      # between boot(restart) and loaded: the pool is being reloaded from the DB
+    smode = {"AUTO": "SAuto", "REQUEST_CLEAN": "SClean", "REQUEST_KILL": "SKill", "REQUEST_NOW": "SNow",
+             "REQUEST_NOW_NOW": "SNowNow", "AUTO_ON_TASK_FAILURE": "SAuto"}
+    sreason = {"AUTOMATIC": "SAuto", "REQUEST(CLEAN)": "SClean", "REQUEST(KILL)": "SKill", "REQUEST(NOW)": "SNow",
+               "REQUEST(NOW-NOW)": "SNowNow"}
+
+    def opt_tid(x):
+        if not x:
+            return "None"
+        pnt, name = x.split("/")
+        return f"(Some {nm.tid([int(pnt), name])})"
+
     for e in trace:
         k = e["e"]
+        if k == "boot" and e.get("restart"):
+            loading = True
+            out.append("ERestart")
+            continue
+        if k == "loaded":
+            if e.get("restart"):
+                out.append("ERestartDone")
+            loading = False
+            continue
+        if loading and k == "add":
+            tracked.add(e["t"]["obj"])
+            out.append(f"ERestore {tview(e['t'], nm, icp)}")
+            continue
         if k == "spawn":
             tracked.add(e["t"]["obj"])
         if k in ("state", "output", "sat") and e.get("obj") not in tracked:
@@ -175,6 +200,8 @@ def events(scn, trace, nm: Names) -> list[str]:
             sn = e["snap"]
             out.append(f"ETickEnd {q.clist(tview(v, nm, icp) for v in sn['tasks'])} "
                        f"{q.clist(nm.tid(i) for i in sn['to_hold'])} {q.copt(sn['hold_point'], q.cz)}")
+            if sn["stop_point"] is not None:
+                out.append(f"EParams {q.cz(sn['stop_point'])} {opt_tid(sn.get('stop_task'))}")
         elif k == "cmd_hold":
             out.append(f"ECmdHold {q.clist(nm.tid(i) for i in e['ids'])}")
         elif k == "cmd_release":
@@ -185,9 +212,20 @@ def events(scn, trace, nm: Names) -> list[str]:
             out.append("ECmdReleaseHoldPoint")
         elif k == "remove_begin":
             out.append(f"ERemoveBegin {nm.tid(e['id'])}")
+        elif k == "auto_shutdown_ok":
+            out.append("EShutdownAuto")
         elif k == "shutdown":
-            if e["reason"] == "AUTOMATIC":
-                out.append("EShutdownAuto")
+            if e["reason"] in sreason:
+                out.append(f"EShutdownReq {sreason[e['reason']]}")
+        elif k == "cmd_stop":
+            if e["mode"] in smode:
+                out.append(f"ECmdStop {smode[e['mode']]}")
+        elif k == "cmd_stop_point":
+            out.append(f"ECmdStopPoint {q.cz(e['point'])}")
+        elif k == "cmd_stop_task":
+            out.append(f"ECmdStopTask {opt_tid(e['task'])}")
+        elif k == "stop_task_done":
+            out.append("EStopTaskDone")
     return out
 
 
